@@ -45,7 +45,8 @@ CHECKS = {
     ),
     "C13": dict(
         category="model_checking",
-        text=("As C02 with the asynchronous WAL: CrashJudge.tla requires the recovered map to equal the reference map after some prefix of "
+        text=("SimpleDBDisk.tla with Async = TRUE (buffered appends reaching the file in arbitrary pieces, rotation writes the buffer out, a kill "
+              "loses it) is model-checked for the prefix property incl. crashes inside recovery; as C02 with the asynchronous WAL: CrashJudge.tla requires the recovered map to equal the reference map after some prefix of "
               "the applied sequence that contains the last WAL rotation; sessions include > 4 MiB of incompressible log so that buffer "
               "flushes cut records, and 0 / 1 / many rotations; RecMap of the specification on every decoded image = real recovery."),
         design_ref="§5 C13",
